@@ -44,6 +44,9 @@ type qEntry struct {
 type queueModel struct {
 	requested []qEntry
 	toRequest []bitcoin.Hash32
+	// processing: the block handed out by pop and not yet reported finished (the block processor
+	// takes a block out of the window before it adds it to the chain)
+	processing *bitcoin.Hash32
 	last      bitcoin.Hash32
 	limit     int // byte limit above which no new request is made
 	window    int
@@ -104,6 +107,8 @@ func (m *queueModel) pop() wire.Block {
 	}
 	b := m.requested[0].blk
 	m.last = m.requested[0].h
+	ph := m.requested[0].h
+	m.processing = &ph
 	m.requested = m.requested[1:]
 	return b
 }
@@ -133,6 +138,10 @@ func (m *queueModel) clearAfter(h bitcoin.Hash32) {
 			m.toRequest = m.toRequest[:i+1]
 			return
 		}
+	}
+	if m.processing != nil && *m.processing == h {
+		// a fork right above the block being processed: everything requested is beyond it
+		m.requested, m.toRequest = nil, nil
 	}
 }
 
@@ -223,6 +232,10 @@ func c13apply(ops []c13op) (clause, key, msg string) {
 			// buffered any more
 			st.Reset()
 			m.clearAll()
+			m.processing = nil
+		case "finished":
+			st.FinishedBlock()
+			m.processing = nil
 		}
 		// state comparison
 		req := st.VerifRequested()
@@ -327,6 +340,9 @@ func c13genOp(c *Ctx, universe int, nextFresh *int) c13op {
 		if t.Bool(1, 4) {
 			return c13op{kind: "reset"}
 		}
+		if t.Bool(1, 2) {
+			return c13op{kind: "finished"}
+		}
 		return c13op{kind: "next"}
 	}
 }
@@ -379,7 +395,7 @@ func init() {
 				alphabet = append(alphabet, c13op{kind: "deliver", a: h, size: 500})
 			}
 			alphabet = append(alphabet, c13op{kind: "pop"}, c13op{kind: "next"}, c13op{kind: "clearAll"},
-				c13op{kind: "clearAfter", a: 1})
+				c13op{kind: "clearAfter", a: 1}, c13op{kind: "finished"})
 			seq := make([]c13op, 0, depth)
 			var rec func(d int) bool
 			rec = func(d int) bool {
@@ -650,8 +666,22 @@ func c13judgeWire(c *Ctx, ns *NodeSim) {
 			// requested from the first block after the fork
 			c.Probe("branch_switch_seen")
 			f := ForkPoint(b, prev)
+			if at, ok := lastReqAt[b.Parent]; ok && b.Parent != f && !held(b.Parent) && r.at-at <= time.Second {
+				// a straggler: the block processor had taken this block from the to-request queue
+				// just before the headers handler discarded that branch; its getdata was already on
+				// its way to the connection. It continues the branch requested a moment ago and does
+				// not change which branch the node is on.
+				c.Probe("straggler_request_of_discarded_branch")
+				continue
+			}
 			if b.Parent != f && !held(b.Parent) {
-				c.Violate("order", "new-branch-not-from-fork", "after a fork at %s (previous request %s) the first request on the new branch is %s, whose parent %s is neither the fork point nor held", f, prev, b, b.Parent)
+				var sb strings.Builder
+				for _, x := range items {
+					if x.req != nil && x.req.conn == r.conn && x.seq <= it.seq {
+						fmt.Fprintf(&sb, " %s@%v", x.req.b, x.req.at)
+					}
+				}
+				c.Violate("order", "new-branch-not-from-fork", "after a fork at %s (previous request %s) the first request on the new branch is %s, whose parent %s is neither the fork point nor held; requests on %s so far:%s", f, prev, b, b.Parent, r.conn, sb.String())
 			}
 			keep := win[:0:0]
 			for _, w := range win {
